@@ -54,13 +54,83 @@ def has_cycle(b, removed_blocks, removed_edges):
     return None
 
 
+def _bool_call_of(b, sw):
+    """the call whose bool result the switch at `sw` tests (through copies and `!`), if it is one"""
+    t = b.blocks[sw]['term']
+    if t['discr']['k'] not in ('copy', 'move') or t['discr']['place']['p']:
+        return []
+    l, at, truth = t['discr']['place']['l'], sw, True
+    for _ in range(8):
+        ds = [d for d in b.defs_of(l) if d[0] in ('stmt', 'call')]
+        if len(ds) > 1:
+            ds = [d for d in ds if d[1] == at] or ds
+        if len(ds) != 1:
+            return []
+        d = ds[0]
+        if d[0] == 'call':
+            return [(d[2], truth)]
+        rv = d[3]['rv']
+        if rv['k'] == 'use' and rv['op']['k'] in ('copy', 'move') and not rv['op']['place']['p']:
+            l, at = rv['op']['place']['l'], d[1]
+        elif rv['k'] == 'unop' and rv['a']['k'] in ('copy', 'move') and not rv['a']['place']['p']:
+            l, at, truth = rv['a']['place']['l'], d[1], not truth
+        else:
+            return []
+    return []
+
+
+def r5(R5, cfg, F):
+    """The notify handler learns that the reloader (hence the cache) is gone only from a failed send (R3).  Its batches
+    come from a lazy iterator chain (no upper size bound), so EventSender::send_multiple must attempt the send for
+    them whatever they contain: the only returns that skip the send are the ones decided by the iterator's size_hint
+    (an iterator that promises at most 0 / 1 items), never by what was collected."""
+    b = F.one(r'^hot_reloading::EventSender::send_multiple$')
+    if not b:
+        R5.missing(cfg, 'EventSender::send_multiple')
+        return
+    snd = [c for c in b.calls() if c.callee and c.callee.best == 'crossbeam_channel::Sender::<T>::send']
+    sh = [c for c in b.calls() if c.callee and c.callee.name == 'size_hint']
+    ok = len(snd) == 1 and len(sh) == 1
+    why = 'shape: one size_hint and one Sender::send expected'
+    if ok:
+        # every decision that lets a path avoid the send is a test of size_hint().1 or of the iterator's own next()
+        nx = [c for c in b.calls() if c.callee and c.callee.name == 'next' and c.callee.trait == 'std::iter::Iterator']
+        allowed = {'call@bb%d' % sh[0].bb} | {'call@bb%d' % c.bb for c in nx}
+        bad = []
+        live = b.live_blocks(unwind=False)
+        can_send = {bb for bb in live if snd[0].bb in b.reachable([bb])}
+        for bb, t in b.terms():
+            if t['k'] != 'switch' or bb not in can_send or b.blocks[bb]['cleanup']:
+                continue
+            if all(d in can_send for d, _ in b.edges(bb)):
+                continue
+            # a decision that can take the send away
+            root = None
+            for c, truth in _bool_call_of(b, bb):
+                root = 'call@bb%d' % c.bb
+                what = c.callee.best if c.callee else '?'
+            if root is None:
+                tst = common.switch_test(b, bb)
+                dp = common.deep_path(b, tst[1], at=bb) if tst else None
+                root = dp[0] if dp else '?'
+                what = dp
+            if root not in allowed:
+                bad.append(what)
+        ok = not bad
+        why = 'the send is skipped depending on %s: a batch that turns out to be empty would never reach the channel, and a watcher whose cache is gone would never find out' % bad
+    R5.check(ok, cfg, b.path, 'send-skipped-only-by-size_hint', 'send_multiple: %s' % why, b.loc())
+
+
 def run(ctx):
     rep = ctx.report
     R1 = rep.rule('C15.R1', 'every cycle of the reloader thread blocks in Select::ready or consumed a message', floor=1)
     R2 = rep.rule('C15.R2', 'Disconnected on either receiver leaves the loop', floor=2)
     R3 = rep.rule('C15.R3', 'a failed send_multiple makes the notify handler drop its watcher', floor=1)
     R4 = rep.rule('C15.R4', 'one thread per reloader, owning both receivers and the source by move', floor=3)
+    R5 = rep.rule('C15.R5', 'the file watcher notices that its cache is gone: every batch it reports is handed to the channel, even an empty one', floor=1)
     for cfg, F in ctx.hr_cfgs():
+        r5(R5, cfg, F)
+        R5.finish_cfg(cfg)
         b = F.body(TH)
         if not b:
             R1.missing(cfg, TH)
